@@ -28,6 +28,7 @@ SCHEMA = f'''<xs:schema {XS} targetNamespace="urn:t" xmlns:t="urn:t" elementForm
       <xs:element name="tries" minOccurs="0" default="3"><xs:complexType><xs:simpleContent><xs:extension base="xs:int"><xs:attribute name="u" type="xs:token"/></xs:extension></xs:simpleContent></xs:complexType></xs:element>
       <xs:element name="vals" minOccurs="0"><xs:complexType><xs:simpleContent><xs:extension base="t:ints"><xs:attribute name="unit" type="xs:token"/></xs:extension></xs:simpleContent></xs:complexType></xs:element>
       <xs:element name="mix" minOccurs="0"><xs:complexType mixed="true"><xs:sequence><xs:element name="b" minOccurs="0" maxOccurs="unbounded"><xs:complexType><xs:simpleContent><xs:extension base="xs:string"><xs:attribute name="k" type="xs:int"/></xs:extension></xs:simpleContent></xs:complexType></xs:element></xs:sequence></xs:complexType></xs:element>
+      <xs:sequence minOccurs="0" maxOccurs="unbounded"><xs:element name="line" type="xs:int"/><xs:element name="ln" type="xs:token" minOccurs="0"/></xs:sequence>
       <xs:element name="end" type="xs:token"/>
       <xs:element name="u" type="xs:string" form="unqualified" minOccurs="0"/>
      </xs:sequence><xs:attribute name="id" type="xs:ID" use="required"/><xs:attribute name="w" type="xs:double"/><xs:attribute name="gaps"><xs:simpleType><xs:list itemType="xs:duration"/></xs:simpleType></xs:attribute><xs:attribute name="ver" type="xs:int" fixed="2"/></xs:complexType></xs:element>
@@ -57,6 +58,9 @@ def gen(rng):
         if rng.random() < .3: parts.append(f'<t:mix>{rng.choice(["", "x"])}<t:b>y</t:b>{rng.choice(["", "z"])}<t:b>w</t:b></t:mix>')
         if rng.random() < .3 and not any('mix>' in x for x in parts):     # namespace declarations two levels deep (a default namespace, a prefix below it), then an unqualified local sibling: scopes must close
             parts.append('<mix xmlns="urn:t">' + rng.choice(['', 'x']) + '<b k="1" xmlns:q="urn:q">y</b><b>w</b></mix>')
+        # a repeating group whose first element is followed by an optional one: runs of same-name children that the encoder has to hand back in their own order
+        # (the optional second element only after the first occurrence: the dictionary conventions group children by name and cannot place it anywhere else)
+        if rng.random() < .5: parts += [f'<t:line>{j + 1}</t:line>' + ('<t:ln>k</t:ln>' if j == 0 and rng.random() < .3 else '') for j in range(rng.randrange(1, 6))]
         parts.append('<t:end>e</t:end>')
         if rng.random() < .4: parts.append('<u>plain</u>')        # a required particle after the optional ones: data truncated before an optional particle is incomplete
         w = rng.choice(['', ' w="1.5"', ' w="INF"', ' w="1e3"']) + rng.choice(['', '', ' gaps="P1D PT2H"', ' gaps="P1Y"']) + rng.choice([' ver="2"', ' ver="02"'])       # an attribute with a fixed value, always present (an absent one is filled in by decoding), in two lexical forms
